@@ -26,10 +26,12 @@ MUTATORS = {"append", "add", "update", "extend", "insert", "setdefault", "append
 
 
 class Def:
-    __slots__ = ("name", "kind", "value", "stmt", "node", "index", "func")
+    __slots__ = ("name", "kind", "value", "stmt", "node", "index", "func", "key", "arity")
 
     def __init__(self, name: str, kind: str, value: Optional[ast.AST], stmt: Optional[ast.AST],
                  node: Optional[Node] = None, index: Optional[int] = None, func: Optional[Func] = None):
+        self.key: Optional[ast.AST] = None
+        self.arity: Optional[int] = None
         self.name = name
         self.kind = kind
         self.value = value
@@ -59,11 +61,14 @@ def _target_defs(target: ast.AST, value: Optional[ast.AST], stmt: ast.AST, kind:
             for d, strong in _target_defs(elt, sub_val, stmt, "unpack" if kind == "assign" else kind):
                 if d.index is None:
                     d.index = idx
+                    d.arity = len(target.elts) if isinstance(elt, ast.Name) else None
                 out.append((d, strong))
     elif isinstance(target, ast.Subscript):
         base = target.value
         if isinstance(base, ast.Name):
-            out.append((Def(base.id, "item", value, stmt), False))
+            dd = Def(base.id, "item", value, stmt)
+            dd.key = target.slice
+            out.append((dd, False))
     elif isinstance(target, ast.Starred):
         out += _target_defs(target.value, value, stmt, kind)
     return out
@@ -300,20 +305,22 @@ CallString = Tuple[Tuple[str, int], ...]  # ((caller qname, id(call)), ...)
 
 
 class SliceItem:
-    __slots__ = ("func", "node", "stack", "parent", "why")
+    __slots__ = ("func", "node", "stack", "parent", "why", "aspect")
 
-    def __init__(self, func: Func, node: ast.AST, stack: Tuple[Any, ...], parent: Optional["SliceItem"], why: str):
+    def __init__(self, func: Func, node: ast.AST, stack: Tuple[Any, ...], parent: Optional["SliceItem"], why: str, aspect: Optional[int] = None):
         self.func = func
         self.node = node
         self.stack = stack
         self.parent = parent
         self.why = why
+        self.aspect = aspect  # None: the value; 0 / 1: first / second component of its pairs (keys / values of a mapping)
 
     def chain(self) -> List[str]:
         out: List[str] = []
         cur: Optional[SliceItem] = self
         while cur is not None:
-            out.append(f"{cur.func.module.relpath}:{getattr(cur.node, 'lineno', '?')}: {unparse(cur.node, 70)}  [{cur.why}]")
+            asp = "" if cur.aspect is None else (" <keys / first components>" if cur.aspect == 0 else " <values / second components>")
+            out.append(f"{cur.func.module.relpath}:{getattr(cur.node, 'lineno', '?')}: {unparse(cur.node, 70)}  [{cur.why}]{asp}")
             cur = cur.parent
         return list(reversed(out))
 
@@ -356,6 +363,7 @@ class Slicer:
         through_compare: bool = False,
         max_depth: int = 8,
         max_items: int = 20000,
+        opaque: Optional[Iterable[str]] = None,
     ):
         self.prog = prog
         self.types = types
@@ -366,20 +374,22 @@ class Slicer:
         self.through_compare = through_compare
         self.max_depth = max_depth
         self.max_items = max_items
+        self.opaque = set(opaque or ())
 
     def slice(self, func: Func, expr: ast.AST) -> Slice:
         res = Slice()
-        seen: Set[Tuple[int, Tuple[Any, ...]]] = set()
+        seen: Set[Tuple[int, Tuple[Any, ...], Optional[int]]] = set()
         work: deque = deque()
 
-        def push(f: Func, node: Optional[ast.AST], stack: Tuple[Any, ...], parent: Optional[SliceItem], why: str) -> None:
+        def push(f: Func, node: Optional[ast.AST], stack: Tuple[Any, ...], parent: Optional[SliceItem], why: str, aspect: Any = "inherit") -> None:
             if node is None:
                 return
-            key = (id(node), stack)
-            if key in seen:
+            asp = (parent.aspect if parent is not None else None) if aspect == "inherit" else aspect
+            key = (id(node), stack, asp)
+            if key in seen or (id(node), stack, None) in seen:
                 return
             seen.add(key)
-            it = SliceItem(f, node, stack, parent, why)
+            it = SliceItem(f, node, stack, parent, why, asp)
             res.items.append(it)
             work.append(it)
 
@@ -396,8 +406,8 @@ class Slicer:
         return res
 
     # -- one step -------------------------------------------------------------------------
-    def _comp_binding(self, f: Func, name_node: ast.Name) -> Optional[Tuple[ast.AST, ast.AST]]:
-        """If the name is bound by an enclosing comprehension / lambda: (binder target or lambda, source iter)."""
+    def _comp_binding(self, f: Func, name_node: ast.Name) -> Optional[Tuple[ast.AST, ast.AST, Optional[int]]]:
+        """If the name is bound by an enclosing comprehension / lambda: (binder target or lambda, source iter, pair index)."""
         m = f.module
         cur: ast.AST = name_node
         while cur in m.parent:
@@ -408,26 +418,34 @@ class Slicer:
                         # the name inside the generator's own iter is not bound by it (first generator)
                         if cur is g.iter and g is par.generators[0]:
                             continue
-                        return g.target, g.iter
+                        idx: Optional[int] = None
+                        if isinstance(g.target, (ast.Tuple, ast.List)) and len(g.target.elts) == 2:
+                            for i, e in enumerate(g.target.elts):
+                                if isinstance(e, ast.Name) and e.id == name_node.id:
+                                    idx = i
+                        return g.target, g.iter, idx
             elif isinstance(par, ast.Lambda):
                 if any(a.arg == name_node.id for a in par.args.args + par.args.kwonlyargs):
-                    return par, par
+                    return par, par, None
             elif isinstance(par, (ast.FunctionDef, ast.AsyncFunctionDef)):
                 break
             cur = par
         return None
 
+    SEQ_PRESERVING = {"dict", "collections.OrderedDict", "list", "tuple", "sorted", "reversed", "set", "frozenset", "iter", "typing.cast"}
+
     def _step(self, f: Func, node: ast.AST, stack, it: SliceItem, push, res: Slice) -> None:
         prog = self.prog
+        asp = it.aspect
         if isinstance(node, ast.Name):
             if not isinstance(node.ctx, ast.Load):
                 return
             b = self._comp_binding(f, node)
             if b is not None:
-                tgt, src = b
+                tgt, src, idx = b
                 if isinstance(tgt, ast.Lambda):
                     return  # lambda parameter: unknown
-                push(f, src, stack, it, f"iteration source of {node.id}")
+                push(f, src, stack, it, f"iteration source of {node.id}", idx if asp is None else None)
                 return
             self._name(f, node, node.id, stack, it, push, res)
             return
@@ -453,50 +471,60 @@ class Slicer:
                     tq = self.types.receiver_class(f.module.name, node.value)
                     if tq in self.heap.record_fields:
                         cls_filter = [tq]
-                for sf, val, call in self.heap.field_sources(attr, cls_filter):
+                srcs = self.heap.field_sources(attr, cls_filter)
+                for sf, val, call in srcs:
                     push(sf, val, (), it, f"field {attr} set at {sf.loc(call)}")
-                return
+                if srcs or cls_filter:
+                    return
             stores = self.heap.attr_stores.get(attr, [])
             if stores:
                 cls = f_cls(f)
                 recv_self = isinstance(node.value, ast.Name) and node.value.id == "self"
+                recv_cls = cls.qname if (recv_self and cls is not None) else (self.types.receiver_class(f.module.name, node.value) if self.types is not None else None)
                 for sf, val, st in stores:
-                    if recv_self and cls is not None and f_cls(sf) is not None:
-                        sc = f_cls(sf)
-                        assert sc is not None
-                        related = (
-                            sc.qname == cls.qname
-                            or sc.qname in prog.all_bases(cls.qname)
-                            or cls.qname in prog.all_bases(sc.qname)
-                        )
-                        # stores through another receiver (x.attr = ..) are kept; stores on self in unrelated classes dropped
-                        if not related and _stores_on_self(st):
+                    sc = f_cls(sf)
+                    if recv_cls is not None and sc is not None and _stores_on_self(st):
+                        related = sc.qname == recv_cls or sc.qname in prog.all_bases(recv_cls) or recv_cls in prog.all_bases(sc.qname)
+                        if not related:
                             continue
                     push(sf, val, (), it, f"attribute {attr} stored at {sf.loc(st)}")
-            push(f, node.value, stack, it, f"base of .{attr}")
+            push(f, node.value, stack, it, f"base of .{attr}", None)
             return
         if isinstance(node, ast.Call):
             self._call(f, node, stack, it, push, res)
             return
         if isinstance(node, ast.Subscript):
-            push(f, node.value, stack, it, "subscript base")
+            mp = None
+            if self.types is not None:
+                fns = self.types.fullnames(f.module.name, node.value)
+                if fns:
+                    mp = any(x in ("builtins.dict", "collections.OrderedDict", "typing.Dict", "typing.Mapping", "typing.OrderedDict", "typing.MutableMapping") for x in fns)
+            if asp is not None and isinstance(node.slice, ast.Constant) and node.slice.value in (0, 1) and not mp:
+                push(f, node.value, stack, it, "pair component", None)
+                return
+            push(f, node.value, stack, it, "subscript base", 1 if mp else None)
             return
         if isinstance(node, ast.Compare):
             if self.through_compare:
-                push(f, node.left, stack, it, "compare")
+                push(f, node.left, stack, it, "compare", None)
                 for c in node.comparators:
-                    push(f, c, stack, it, "compare")
+                    push(f, c, stack, it, "compare", None)
             return
         if isinstance(node, ast.IfExp):
             push(f, node.body, stack, it, "conditional value")
             push(f, node.orelse, stack, it, "conditional value")
             return
         if isinstance(node, (ast.ListComp, ast.SetComp, ast.GeneratorExp)):
-            push(f, node.elt, stack, it, "comprehension element")
+            if asp is not None and isinstance(node.elt, ast.Tuple) and len(node.elt.elts) == 2:
+                push(f, node.elt.elts[asp], stack, it, f"component {asp} of the comprehension's pairs", None)
+            else:
+                push(f, node.elt, stack, it, "comprehension element")
             return
         if isinstance(node, ast.DictComp):
-            push(f, node.key, stack, it, "comprehension key")
-            push(f, node.value, stack, it, "comprehension value")
+            if asp in (None, 0):
+                push(f, node.key, stack, it, "comprehension key", None)
+            if asp in (None, 1):
+                push(f, node.value, stack, it, "comprehension value", None)
             return
         if isinstance(node, ast.Lambda):
             push(f, node.body, stack, it, "lambda body")
@@ -505,17 +533,33 @@ class Slicer:
             push(f, node.value, stack, it, "walrus")
             return
         if isinstance(node, ast.Dict):
-            for k in node.keys:
-                push(f, k, stack, it, "dict key")
-            for v in node.values:
-                push(f, v, stack, it, "dict value")
+            if asp in (None, 0):
+                for k in node.keys:
+                    push(f, k, stack, it, "dict key", None)
+            if asp in (None, 1):
+                for v in node.values:
+                    push(f, v, stack, it, "dict value", None)
             return
         if isinstance(node, (ast.Constant,)):
+            return
+        if isinstance(node, (ast.List, ast.Tuple, ast.Set)):
+            if asp is not None and isinstance(node, ast.Tuple) and len(node.elts) == 2 and not any(isinstance(e, ast.Tuple) for e in node.elts):
+                push(f, node.elts[asp], stack, it, f"component {asp} of the pair", None)
+                return
+            for e in node.elts:
+                if asp is not None and isinstance(e, ast.Tuple) and len(e.elts) == 2:
+                    push(f, e.elts[asp], stack, it, f"component {asp} of the pair", None)
+                else:
+                    push(f, e.value if isinstance(e, ast.Starred) else e, stack, it, "element")
+            return
+        if isinstance(node, ast.BinOp) and isinstance(node.op, ast.Add):
+            push(f, node.left, stack, it, "operand")
+            push(f, node.right, stack, it, "operand")
             return
         if isinstance(node, ast.expr):
             for c in ast.iter_child_nodes(node):
                 if isinstance(c, ast.expr):
-                    push(f, c, stack, it, "operand")
+                    push(f, c, stack, it, "operand", None)
             return
         if isinstance(node, (ast.keyword,)):
             push(f, node.value, stack, it, "keyword")
@@ -551,15 +595,28 @@ class Slicer:
                     push_mod(prog, push, prog.modules[mod], st.value, it, f"module variable {d}")
 
     def _def(self, owner: Func, d: Def, stack, it: SliceItem, push, res: Slice) -> None:
+        asp = it.aspect
         if d.kind == "param":
             self._param(owner, d.name, stack, it, push, res)
             return
+        if d.kind == "item":
+            # X[k] = v : X's keys derive from k, its values from v
+            if asp in (None, 0) and d.key is not None:
+                push(owner, d.key, stack, it, f"{d.name}: key of a stored entry", None)
+            if asp in (None, 1) and d.value is not None:
+                push(owner, d.value, stack, it, f"{d.name}: value of a stored entry", None)
+            return
         if d.value is not None:
             why = {
-                "assign": "assigned from", "unpack": "unpacked from", "aug": "augmented by", "item": "item stored",
+                "assign": "assigned from", "unpack": "unpacked from", "aug": "augmented by",
                 "mut": "element added", "for": "iterates over", "with": "bound by with", "except": "exception",
             }.get(d.kind, d.kind)
-            push(owner, d.value, stack, it, f"{d.name} {why}")
+            new_asp: Any = "inherit"
+            if d.kind in ("for", "unpack") and d.index in (0, 1) and d.arity == 2 and asp is None:
+                new_asp = d.index
+            elif d.kind in ("for", "unpack") and d.index is not None:
+                new_asp = None
+            push(owner, d.value, stack, it, f"{d.name} {why}", new_asp)
 
     def _param(self, owner: Func, pname: str, stack, it: SliceItem, push, res: Slice) -> None:
         prog = self.prog
@@ -588,13 +645,16 @@ class Slicer:
 
     def _call(self, f: Func, call: ast.Call, stack, it: SliceItem, push, res: Slice) -> None:
         prog = self.prog
+        asp = it.aspect
         callees, dotted = prog.callees(f, call, self.types)
         fn = call.func
-        if dotted is not None and dotted in self.heap.record_fields:
+        if dotted is not None and dotted in self.heap.record_fields and len(self.heap.record_fields[dotted]) > 1:
             return  # record construction: fields are reached through field loads
         if isinstance(fn, ast.Attribute) and fn.attr == "_replace":
             push(f, fn.value, stack, it, "_replace base")
             return
+        if callees and self.opaque and any(c.qname in self.opaque or c.qname.startswith(tuple(o + "." for o in self.opaque)) for c in callees):
+            callees = []
         if callees and self.follow_calls and len(stack) < self.max_depth:
             _CALL_BY_ID[id(call)] = call
             for cal in callees:
@@ -605,16 +665,44 @@ class Slicer:
                     continue  # recursion
                 for r in returns_of(cal):
                     push(cal, r, stack + (key,), it, f"return of {cal.qname}")
-            if isinstance(fn, ast.Attribute) and not prog.dotted(f, fn):
-                pass
             return
-        # external / unresolved: derives from receiver and all arguments
+        # external / unresolved
+        if dotted in self.SEQ_PRESERVING and call.args:
+            a0 = call.args[1] if dotted == "typing.cast" and len(call.args) > 1 else call.args[0]
+            push(f, a0, stack, it, f"{dotted}(...) of")
+            return
+        if dotted == "enumerate" and call.args:
+            if asp == 0:
+                return  # the index
+            push(f, call.args[0], stack, it, "enumerate(...) of", None)
+            return
+        if dotted == "zip" and len(call.args) == 2 and asp in (0, 1):
+            push(f, call.args[asp], stack, it, f"zip component {asp}", None)
+            return
         if isinstance(fn, ast.Attribute):
-            push(f, fn.value, stack, it, f"receiver of .{fn.attr}()")
-        for a in call.args:
-            push(f, a.value if isinstance(a, ast.Starred) else a, stack, it, f"argument of {unparse(fn, 30)}()")
+            a = fn.attr
+            if a == "items":
+                push(f, fn.value, stack, it, "receiver of .items()")
+                return
+            if a == "keys":
+                push(f, fn.value, stack, it, "keys of", 0)
+                return
+            if a == "values":
+                push(f, fn.value, stack, it, "values of", 1)
+                return
+            if a in ("get", "pop", "setdefault"):
+                push(f, fn.value, stack, it, f"value looked up by .{a}()", 1)
+                if a in ("get", "setdefault") and len(call.args) > 1:
+                    push(f, call.args[1], stack, it, "default of the lookup", None)
+                return
+            if a in ("copy",):
+                push(f, fn.value, stack, it, "copy of")
+                return
+            push(f, fn.value, stack, it, f"receiver of .{a}()", None)
+        for a_ in call.args:
+            push(f, a_.value if isinstance(a_, ast.Starred) else a_, stack, it, f"argument of {unparse(fn, 30)}()", None)
         for k in call.keywords:
-            push(f, k.value, stack, it, f"argument of {unparse(fn, 30)}()")
+            push(f, k.value, stack, it, f"argument of {unparse(fn, 30)}()", None)
 
 
 _CALL_BY_ID: Dict[int, ast.Call] = {}
